@@ -111,13 +111,14 @@ Proof.
   assert (ch = 113 \/ ch = 97 \/ ch = 111 \/ ch = 104 \/ ch = 118) as Hch.
   { repeat match type of Hl with (if N.eqb ?a ?b then _ else _) = _ => destruct (N.eqb_spec a b); [auto 10|] end.
     discriminate. }
-  unfold mode_char.
+  assert (classify_mode ch = MRankC) as Hc by (destruct Hch as [->|[->|[->|[->| ->]]]]; reflexivity).
+  assert (rankletter_of ch = Some rl) as Hl'.
+  { unfold rankletter_of. exact Hl. }
+  unfold mode_char. rewrite Hc, Hl'. cbn zeta. rewrite Hr.
   assert (bool_decide (arg ∈ dom (ch_users (ms_chan m))) = true) as Hin' by now apply bool_decide_eq_true_2.
-  destruct Hch as [->|[->|[->|[->| ->]]]]; cbn in Hl |- *; injection Hl as <-; cbn in Hr |- *;
-    rewrite ?Hin', ?Hr; cbn; rewrite ?Hin', ?Hr; cbn;
-    repeat match goal with |- context [if ?x then _ else _] => destruct x eqn:? end; try congruence;
-    (match goal with |- context [rbind ?x _] => destruct x as [co'|] eqn:Hc; cbn [rbind]; [|discriminate] end);
-    intros [= <- <- <-]; cbn; auto.
+  rewrite Hin'.
+  destruct (chan_set_rank rl mode_set arg (ms_chan m)) as [co'|] eqn:Hsr; cbn [rbind]; [|discriminate].
+  intros [= <- <- <-]. cbn. auto.
 Qed.
 
 (* outsiders and absent channels: one error, nothing changes *)
